@@ -380,6 +380,25 @@ Qed.
 Lemma single_read_route_ok : forall r, single_read_route r = [] \/ ends_whole (single_read_route r) = true.
 Proof. destruct r; simpl; auto. Qed.
 
+(* ---------------- what leaves the agent ---------------- *)
+Lemma route_outcome_sent : forall usable r l g v,
+  route_outcome usable r l = Sent (Some (g, v)) -> hdr l = Some (g, v) /\ usable v = true.
+Proof.
+  intros usable r l g v H. unfold route_outcome in H.
+  destruct (hdr l) as [[g' v']|]; [|discriminate].
+  destruct (usable v') eqn:E.
+  - inversion H; subst. auto.
+  - destruct r; discriminate.
+Qed.
+
+Lemma route_outcome_unusable : forall usable r l g v,
+  hdr l = Some (g, v) -> usable v = false ->
+  route_outcome usable r l = match r with ProxiedRequest => Sent None | _ => NotSent end.
+Proof. intros usable r l g v H E. unfold route_outcome. rewrite H, E. reflexivity. Qed.
+
+Lemma forwarded_auth_own : forall {X} (client : list X) h, forwarded_auth client (Some h) = [h].
+Proof. reflexivity. Qed.
+
 (* ---------------- pairing at latch time ---------------- *)
 Lemma fetch_local_in : forall f g d, fetch_local f g = Some d -> exists n, In (n, d) f.
 Proof.
